@@ -145,7 +145,16 @@ def oracle(c, r):
     k = c["k"]
     if r.get("err"):
         return
+    if r.get("panic") or "points" not in r:
+        yield ("construct-panic", "building a %s from %d points (tol %r%s) panicked instead of returning a curve or an error" % (
+            "Curve2" if k == "c01.curve2" else "Curve3", len(c["pts"]), c["tol"], ", force closed" if c.get("force_closed") else ""))
+        return
     pts, lens = r["points"], r["lengths"]
+    # tolerance de-duplication leaves consecutive vertices farther apart than the tolerance: no zero-length edge survives
+    for i in range(len(pts) - 1):
+        if norm(sub(pts[i + 1], pts[i])) <= c["tol"] and not (c.get("force_closed") and i == len(pts) - 2):
+            yield ("dedup-spacing", "vertices %d and %d of the built curve are %r apart, tolerance %r" % (i, i + 1, norm(sub(pts[i + 1], pts[i])), c["tol"]))
+            break
     L = r["length"]
     scale = max(1.0, L)
     if lens[0] != 0.0:
